@@ -8,6 +8,7 @@ import GoNfsd.Driver.Locks
 import GoNfsd.Driver.Wal
 import GoNfsd.Driver.Fsck
 import GoNfsd.Driver.BlockMap
+import GoNfsd.Driver.Cache
 
 def main (args : List String) : IO UInt32 :=
   match args with
@@ -21,6 +22,7 @@ def main (args : List String) : IO UInt32 :=
   | ["wal"] => GoNfsd.Driver.Wal.main
   | ["fsck"] => GoNfsd.Driver.Fsck.main
   | ["blockmap"] => GoNfsd.Driver.BlockMap.main
+  | ["cache"] => GoNfsd.Driver.Cache.main
   | _ => do
     IO.eprintln "usage: drv <mkfs>"
     return 2
